@@ -340,6 +340,7 @@ unsigned long SSA::locate(uchar *pattern, uint m, size_t **occs) {
     while (i <= ep) {
       j = i;
       dist = 0;
+      c = 0; // a separator seen for a previous occurrence must not leak in
 
       while (!sampled->access(j)) {
         c = bwt->access(j, rank_tmp);
